@@ -263,6 +263,20 @@ func (e *Engine) SolveUnit(unitName string, uses []string) []*OblResult {
 				}
 				r.query = j.query
 			}
+			if r.Status == "cover-unknown" {
+				// satisfiability with quantified path facts is often undecided: retry the same paths without the
+				// quantified conjuncts (a weaker guard against contradictory assumptions, but still a guard against
+				// contradictory ground preconditions and dead code)
+				for i := range o.Paths {
+					res := solveQuery(stripQuantified(e.buildQuery(o.Paths[i], false, uses)), quickTimeout)
+					r.Time += res.Time
+					if res.Status == "sat" {
+						r.Status = "cover-ok"
+						r.Solver = res.Solver + " (ground part)"
+						break
+					}
+				}
+			}
 			if r.Status != "cover-ok" {
 				for i := 1; i < len(o.Paths); i++ {
 					res := solveQuery(e.buildQuery(o.Paths[i], false, uses), quickTimeout)
@@ -352,6 +366,19 @@ func (e *Engine) prettyModel(m map[string]string) map[string]string {
 		}
 	}
 	return out
+}
+
+// stripQuantified drops every top-level assertion that contains a quantifier from a query.
+func stripQuantified(q string) string {
+	var b strings.Builder
+	for _, ln := range strings.Split(q, "\n") {
+		if strings.HasPrefix(ln, "(assert") && (strings.Contains(ln, "(forall ") || strings.Contains(ln, "(exists ")) {
+			continue
+		}
+		b.WriteString(ln)
+		b.WriteString("\n")
+	}
+	return b.String()
 }
 
 // isErrName: package-level sentinel errors are named Err… (exported) or err… (unexported).
